@@ -221,6 +221,65 @@ pub fn java_markers(d: &Desc, ty: &str) -> Vec<&'static str> {
     out.into_iter().collect()
 }
 
+/// What the generated-code guide's selection rule does with a value of a declaration that has
+/// children: "none-matches", "one-matches-and-parses", "one-matches-but-does-not-parse",
+/// "several-match" (used by C07 to label disagreements).
+pub fn child_status(m: &Model, ty: &str, v: &Val) -> &'static str {
+    if m.d.children(ty).next().is_none() {
+        return "no-children";
+    }
+    let rec = match v {
+        Val::Rec(r) => r,
+        _ => return "no-children",
+    };
+    let plen = match rec.get("payload") {
+        Some(Val::Bytes(b)) => b.len() as u64,
+        _ => 0,
+    };
+    let mut matches: Vec<String> = vec![];
+    for x in m.d.children(ty) {
+        let width = if x.payload().is_some() {
+            None
+        } else {
+            match pdlmc_core::sizes::decl_size(m.d, &x.id) {
+                pdlmc_core::sizes::Size::Static(n) => Some(n / 8),
+                _ => None,
+            }
+        };
+        if x.constraints().is_empty() && width.is_none() {
+            continue;
+        }
+        let cs_ok = x.constraints().iter().all(|c| match (rec.get(&c.id), m.cval_int(ty, &c.id, &c.val)) {
+            (Some(a), Some(e)) => a.int() == e,
+            _ => false,
+        });
+        if cs_ok && width.map(|w| w == plen).unwrap_or(true) {
+            matches.push(x.id.clone());
+        }
+    }
+    match matches.len() {
+        0 => "none-matches",
+        1 => {
+            let mut faults = BTreeSet::new();
+            match m.decode_partial(&matches[0], v, &mut faults) {
+                Some(_) if faults.is_empty() => "one-matches-and-parses",
+                _ => "one-matches-but-does-not-parse",
+            }
+        }
+        _ => "several-match",
+    }
+}
+
+/// a declaration on the way from the root down to `ty` has neither constraints nor a constant
+/// size of its own fields: the documented selection rule never picks it
+pub fn never_selected_child(d: &Desc, ty: &str) -> bool {
+    d.ancestry(ty).iter().any(|a| {
+        a.parent().is_some()
+            && a.constraints().is_empty()
+            && (a.payload().is_some() || !matches!(pdlmc_core::sizes::decl_size(d, &a.id), pdlmc_core::sizes::Size::Static(_)))
+    })
+}
+
 /// the class (or a class on the way down to it) is a child without constraints of its own: the
 /// generated dispatch can select it by constant size at best
 fn via_unconstrained_child(d: &Desc, class_ty: &str) -> bool {
